@@ -189,6 +189,8 @@ CASES = [
     ("m-c19-310-lnotab-pairing", "C19", "fire", "xdis/codetype/code310.py", "        for (offset, line_number), (end, _) in zip(entries, ends):\n            length = end - offset", "        for (end, _), (offset, line_number) in zip([(0, None)] + entries, entries):\n            length = offset - end", ""),
     ("s-c19-310-chunk-100", "C19", "silent", "xdis/codetype/code310.py", "            while length > 254:\n                co_linetable += bytearray([254, line_diff & 0xFF])\n                length -= 254\n                line_diff = 0", "            while length > 254:\n                co_linetable += bytearray([100, line_diff & 0xFF])\n                length -= 100\n                line_diff = 0", ""),
     ("m-c02-313-hasarg", "C02", "fire", "xdis/cross_dis.py", "    if opc.version_tuple >= (3, 13):\n        # From 3.13 on the opcode number alone does not tell: WITH_EXCEPT_START sits\n        # at the HAVE_ARGUMENT threshold and takes no operand. dis consults hasarg.\n        return opcode in opc.hasarg\n", "", "WITH_EXCEPT_START:has_arg"),
+    ("m-c18-dropbox-global-patch", "C18", "fire", "xdis/dropbox/decrypt25.py", "    um.dispatch = dict(um.dispatch)\n", "", "write:class:xdis.marsh._FastUnmarshaller.dispatch"),
+    ("s-c18-dropbox-copy-method", "C18", "silent", "xdis/dropbox/decrypt25.py", "    um.dispatch = dict(um.dispatch)\n", "    um.dispatch = um.dispatch.copy()\n", ""),
     # ---------------- whole-package reformat, one case per property
     ("s-c01-reformat", "C01", "silent", "*REFORMAT*", "", "", ""),
     ("s-c02-reformat", "C02", "silent", "*REFORMAT*", "", "", ""),
